@@ -54,8 +54,10 @@ type CallRecord struct {
 	BodySum   string `json:"body_sum,omitempty"`
 	BodyLen   int    `json:"body_len"`
 
-	T     *TypedRec `json:"typed,omitempty"`
-	ReqCT string    `json:"req_ct,omitempty"` // Content-Type of the request as the client sent it
+	T         *TypedRec `json:"typed,omitempty"`
+	ReqCT     string    `json:"req_ct,omitempty"`     // Content-Type of the request as the client sent it
+	ReqMethod string    `json:"req_method,omitempty"` // method and escaped path as they went on the wire (after an intermediary rewrote them)
+	ReqPath   string    `json:"req_path,omitempty"`
 }
 
 func (r *CallRecord) fire() { r.fired.Store(true) }
